@@ -161,6 +161,50 @@ def check_twin_inplace(sc, a):
     return ("twin-edited-in-place", dev, "<= 1e-9 K") if not dev <= 1e-9 else None
 
 
+def check_twin_profile(sc, a):
+    """the medium given as a profile of layer boundaries (make_medium with a 'z' column: heights of the layer tops above the ground, the
+    last layer reaching the ground), every length multiplied by a, the frequency divided by a: same brightness temperature, same
+    optical depth of every layer"""
+    import pandas as pd
+    from smrt import make_model, sensor_list
+    from smrt.inputs.make_medium import make_medium
+    out = []
+    for f in (1.0, a):
+        th = np.asarray(sc["thickness"], dtype=float)
+        z = (np.cumsum(th[::-1])[::-1]) * f
+        df = pd.DataFrame(dict(z=z, density=sc["density"], temperature=sc["temperature"], corr_length=np.asarray(sc["micro"]["corr_length"]) * f))
+        df["microstructure_model"] = "exponential"
+        sp = make_medium(df, ice_permittivity_model=complex(*sc["ice_permittivity"]), background_permittivity_model=1.0)
+        res = make_model("iba", "dort", rtsolver_options=dict(n_max_stream=16)).run(sensor_list.passive(sc["frequency"] / f, [40., 55.]), sp)
+        out.append((np.asarray(res.data.values).ravel(), np.asarray(res.optical_depth().values).ravel(), np.asarray([l.thickness for l in sp.layers]) / f))
+    dev = float(np.abs(out[0][2] - out[1][2]).max() / np.abs(out[0][2]).max())
+    if not dev <= 1e-9:
+        return ("profile-thickness", dev, "layer thicknesses of the twin are a times those of the original (<= 1e-9 relative)")
+    dev = float(np.abs(out[0][0] - out[1][0]).max() / np.abs(out[0][0]).max())
+    if not dev <= 1e-6:
+        return ("profile-simulation", dev, "<= 1e-6 relative")
+    dev = float(np.abs(out[0][1] - out[1][1]).max() / np.abs(out[0][1]).max())
+    if not dev <= 1e-6:
+        return ("profile-optical-depth", dev, "<= 1e-6 relative")
+    return None
+
+
+def check_twin_accepted(sc, a, em):
+    """a scene the package accepts has twins it accepts too: no length is special"""
+    from smrt.core.error import SMRTError
+    try:
+        emmodel_invariants(sc, em)
+    except (SMRTError, Warning, AssertionError):
+        return None
+    try:
+        emmodel_invariants(scaled(sc, a), em)
+    except SMRTError as e:
+        return ("twin-refused", float(a), f"the twin is accepted as the original is ({e})"[:200])
+    except (Warning, AssertionError):
+        return None
+    return None
+
+
 def check_invariants(sc, a, em):
     e1, e2 = emmodel_invariants(sc, em), emmodel_invariants(scaled(sc, a), em)
     m = np.isfinite(e1) & np.isfinite(e2)
@@ -230,6 +274,30 @@ def oracle(ctx, hints, effort):
         if r:
             key = f"{r[0]}:{em}"
             findings.setdefault(key, Finding(key, f"scaled twin (a={a:.3f}) differs: {r[0]}", {"kind": "invariants", "scene": sc, "a": a, "em": em}, r[1], r[2]))
+    # layer boundaries given as a z profile with centimetre/millimetre values, twins far smaller and larger; and twins of coarse grains
+    # (hail, depth hoar cups) seen at L band, whose lengths reach centimetres in the long-wave twin
+    for it in range(2 if effort == "routine" else 6):
+        sc = const_scene(rng, "exponential", max_layers=4)
+        sc["thickness"] = [round(float(v), 2) for v in rng.uniform(0.03, 0.3, len(sc["thickness"]))]
+        sc["micro"]["corr_length"] = [round(float(v), 6) for v in rng.uniform(8e-5, 3.5e-4, len(sc["thickness"]))]
+        sc["frequency"] = 37e9
+        a = (0.37, 0.06, 1.7, 0.013)[it % 4]
+        try:
+            evals += 2
+            r = check_twin_profile(sc, a)
+        except (AssertionError, Warning):
+            r = None
+        if r:
+            findings.setdefault(r[0], Finding(r[0], f"scaled twin (a={a}) of a medium given by its z profile differs: {r[0]}",
+                                              {"kind": "profile", "scene": sc, "a": a}, r[1], r[2]))
+        sc2 = dict(thickness=[0.5], density=[round(float(rng.uniform(250, 400)), 1)], temperature=[260.0], frequency=1.4e9, ice_permittivity=[3.18, 1e-3],
+                   microstructure=("sticky_hard_spheres", "exponential")[it % 2], emmodel="iba", nmax=16,
+                   micro=(dict(radius=[round(float(rng.uniform(1e-3, 2.5e-3)), 5)], stickiness=0.3) if it % 2 == 0 else dict(corr_length=[round(float(rng.uniform(1e-3, 2e-3)), 5)])))
+        for a2 in (4.0, 8.0):
+            evals += 2
+            r = check_twin_accepted(sc2, a2, "iba")
+            if r:
+                findings.setdefault(r[0], Finding(r[0], f"scaled twin (a={a2}) refused while the original is accepted", {"kind": "accepted", "scene": sc2, "a": a2, "em": "iba"}, r[1], r[2]))
     # coarse grains at 89 GHz (k*d of a few units, still below lambda/4) with the microstructures that have no slope-at-origin length:
     # the quadrature of ks is then far from trivial, and every twin must resolve it equally well
     coarse = [("teubner_strey", lambda: dict(corr_length=[round(float(rng.uniform(3e-4, 5e-4)), 7)], repeat_distance=[round(float(rng.uniform(2e-3, 4e-3)), 6)])),
@@ -407,6 +475,9 @@ def replay(inp, rp=None):
         return Finding("?", r[0], inp, r[1], r[2]) if r else None
     if inp.get("kind") == "family":
         r = check_twin_family(inp["scene"], inp["factors"])
+        return Finding("?", r[0], inp, r[1], r[2]) if r else None
+    if inp.get("kind") in ("profile", "accepted"):
+        r = check_twin_profile(inp["scene"], inp["a"]) if inp["kind"] == "profile" else check_twin_accepted(inp["scene"], inp["a"], inp["em"])
         return Finding("?", r[0], inp, r[1], r[2]) if r else None
     if inp.get("kind") == "invariants":
         r = check_invariants(inp["scene"], inp["a"], inp["em"])
